@@ -226,7 +226,7 @@ def _points(n, d):
             i //= b
             f /= b
         return x
-    primes = [2, 3, 5, 7, 11]
+    primes = [2, 3, 5, 7, 11, 13, 17, 19, 23, 29, 31, 37, 41, 43, 47, 53, 59, 61]
     U = np.array([[vdc(i + 1, primes[k]) for k in range(d)] for i in range(n)])
     from scipy.stats import norm
     return norm.ppf(0.02 + 0.96 * U)
@@ -531,6 +531,7 @@ def plan(ctx):
     tr.append({"kind": "long", "thorough": th})
     ctx.explore("trim-contract", tr)
     vol = [{"kind": "volume", "d": d, "n": n} for d in (1, 2, 3, 5) for n in (d + 2, 10, 50) + ((400,) if th else ())]
+    vol += [{"kind": "volume", "d": 16, "n": 10000}, {"kind": "volume", "d": 14, "n": 9400}]  # scale: arrays of more than 2^17 values
     ctx.explore("volume-metric", vol)
     fcs = [{"kind": "forms", "fn": "ess", "lens": [L]} for L in (1, 2, 3, 4)]
     fcs += [{"kind": "forms", "fn": "trim", "lens": [L], "ess": e, "bins": b} for L in (1, 2, 3, 4) for e in (0.5, 0.99) for b in (2, 10)]
